@@ -122,7 +122,8 @@ PROP = dict(
     modules=["CG.Props.C10"],
     pre_build=regen_wordlists,
     required_theorems=["C10_bits_append", "C10_bits_extract", "C10_encode_eq_spec", "C10_decode_encode",
-                       "C10_bad_checksum_rejected", "C10_bad_word_rejected", "C10_wordlists_ok"],
+                       "C10_bad_checksum_rejected", "C10_bad_word_rejected", "C10_wordlists_ok",
+                       "C10_accept_only_valid", "C10_roundtrip_bundled", "C10_encode_injective"],
     rule="c10.wordlist: the eight lists of load_wordlist against the generated Lean lists. c10.encode / c10.roundtrip: every "
          "language x every entropy length 4..64 step 4 x {00.., ff.., 80.., 7f.., counting, random}; plus lengths outside the claim "
          "(0-19 not multiple of 4, 68..1040) with spec '*'. c10.decode: all 2047 x 12 single-word substitutions of an English "
